@@ -380,6 +380,59 @@ func runTCPCase(ops []tcpOp) []tcpRes {
 			}
 			c.c.Close()
 			r.OK = true
+		case "emfile":
+			// makes one accept() of the listener at Addr fail with EMFILE: the descriptor table is filled up to a lowered soft limit
+			// with exactly one slot left, which the dialling client socket takes; everything is released again afterwards
+			var lim, old syscall.Rlimit
+			if err := syscall.Getrlimit(syscall.RLIMIT_NOFILE, &lim); err != nil {
+				r.Err = err.Error()
+				break
+			}
+			old = lim
+			ents, _ := os.ReadDir("/proc/self/fd")
+			lim.Cur = uint64(len(ents) + 6)
+			if err := syscall.Setrlimit(syscall.RLIMIT_NOFILE, &lim); err != nil {
+				r.Err = err.Error()
+				break
+			}
+			var fillers []*os.File
+			for {
+				f, err := os.Open("/dev/null")
+				if err != nil {
+					break
+				}
+				fillers = append(fillers, f)
+			}
+			if len(fillers) > 0 {
+				fillers[len(fillers)-1].Close()
+				fillers = fillers[:len(fillers)-1]
+			}
+			c, derr := net.DialTimeout("tcp", op.Addr, 500*time.Millisecond)
+			time.Sleep(150 * time.Millisecond)
+			if c != nil {
+				c.Close()
+			}
+			for _, f := range fillers {
+				f.Close()
+			}
+			syscall.Setrlimit(syscall.RLIMIT_NOFILE, &old)
+			r.OK = derr == nil
+			time.Sleep(50 * time.Millisecond)
+		case "flood":
+			// keeps writing to the connection from a goroutine of its own until the write fails (the peer of this stream is not reading:
+			// every buffer on the way fills up and the proxy's link for this direction blocks)
+			if c := conns[op.ID]; c != nil {
+				go func(cn net.Conn) {
+					buf := make([]byte, 65536)
+					for {
+						cn.SetWriteDeadline(time.Now().Add(30 * time.Second))
+						if _, err := cn.Write(buf); err != nil {
+							return
+						}
+					}
+				}(c.c)
+				r.OK = true
+			}
 		case "sleep":
 			time.Sleep(time.Duration(op.Ms) * time.Millisecond)
 			r.OK = true
